@@ -119,6 +119,10 @@ type builder struct {
 	seen  int
 	uts   []expr.UserType
 	built []bool
+	// variants for the "equal under the documented rules" oracle: rename gives the rename-th user type
+	// another name, retag gives the retag-th object attribute another struct:field:name tag (-1: none)
+	rename, retag int
+	fields        int
 }
 
 func (b *builder) order(n int) []int {
@@ -175,7 +179,15 @@ func (b *builder) dt(d *tdesc) expr.DataType {
 		var req []string
 		for _, i := range b.order(len(d.Fields)) {
 			f := d.Fields[i]
-			o.Set(f.Name, b.att(f))
+			a := b.att(f)
+			if b.fields == b.retag {
+				if a.Meta == nil {
+					a.Meta = expr.MetaExpr{}
+				}
+				a.Meta["struct:field:name"] = []string{"Retagged"}
+			}
+			b.fields++
+			o.Set(f.Name, a)
 			if f.Req {
 				req = append(req, f.Name)
 			}
@@ -200,6 +212,9 @@ func (b *builder) user(i int) expr.UserType {
 	}
 	var ut expr.UserType
 	base := &expr.UserTypeExpr{TypeName: b.g.names[i], AttributeExpr: &expr.AttributeExpr{}}
+	if i == b.rename {
+		base.TypeName += "Renamed"
+	}
 	if b.g.isRT[i] {
 		ut = &expr.ResultTypeExpr{UserTypeExpr: base, Identifier: "application/vnd." + strings.ToLower(b.g.names[i])}
 	} else {
@@ -369,7 +384,11 @@ func runC13(t *verifsim.Tape, cfg engine.Config) *engine.Outcome {
 		root = g.desc(depth)
 	}
 	mk := func(perm bool, leaf int) (expr.DataType, *builder) {
-		b := &builder{g: g, perm: perm, leaf: leaf, uts: make([]expr.UserType, len(g.users))}
+		b := &builder{g: g, perm: perm, leaf: leaf, uts: make([]expr.UserType, len(g.users)), rename: -1, retag: -1}
+		return b.dt(root), b
+	}
+	mkVariant := func(rename, retag int) (expr.DataType, *builder) {
+		b := &builder{g: g, leaf: -1, uts: make([]expr.UserType, len(g.users)), rename: rename, retag: retag}
 		return b.dt(root), b
 	}
 	orig, _ := mk(false, -1)
@@ -537,6 +556,60 @@ func runC13(t *verifsim.Tape, cfg engine.Config) *engine.Outcome {
 			o.Features["leaf_change_checked"]++
 			if expr.Hash(orig, false, false, false) == expr.Hash(changed, false, false, false) && !rootIgnores(before) {
 				o.Violate("hash_ignores_difference", "hash_ignores_leaf", "two types that differ in one leaf type have the same hash:\n  %s\n  %s", clipStr(before, 500), clipStr(snapshot(changed), 500))
+			}
+		}
+	}
+	// ---- 4. equal exactly when structurally equal under the rule each flag combination documents ----
+	//   user type names count unless ignoreNames (and always when ignoreFields);
+	//   struct:field:* tags of object attributes count unless ignoreTags
+	_, bo := mkVariant(-1, -1)
+	var builtUsers []int
+	for i, u := range bo.uts {
+		if u != nil {
+			builtUsers = append(builtUsers, i)
+		}
+	}
+	if len(builtUsers) > 0 {
+		k := builtUsers[t.Draw("rename-which", len(builtUsers))]
+		renamed, _ := mkVariant(k, -1)
+		for fi, f := range hashFlags {
+			a, b := expr.Hash(orig, f[0], f[1], f[2]), expr.Hash(renamed, f[0], f[1], f[2])
+			switch {
+			case f[0]: // ignoreFields: user types are opaque names; only the root's own name is certainly seen
+				if root.Kind == "user" && root.User == k && a == b {
+					o.Violate("hash_ignores_difference", fmt.Sprintf("hash_ignores_root_rename:flags#%d", fi), "the root user type renamed, ignoreFields set: same hash %s", clipStr(a, 300))
+				}
+			case f[1]: // ignoreNames
+				o.Features["rename_equal_checked"]++
+				if a != b {
+					o.Violate("hash_differs_for_equal_types", fmt.Sprintf("hash_sees_ignored_name:flags=%v", f), "two types that differ only in the NAME of user type %s hash differently although ignoreNames is set (flags ignoreFields=%v ignoreNames=%v ignoreTags=%v):\n  %s\n  %s\n  type %s", g.names[k], f[0], f[1], f[2], clipStr(a, 400), clipStr(b, 400), clipStr(before, 500))
+				}
+			default:
+				o.Features["rename_differs_checked"]++
+				if a == b {
+					o.Violate("hash_ignores_difference", fmt.Sprintf("hash_ignores_name:flags=%v", f), "two types that differ in the NAME of user type %s have the same hash although names count (flags ignoreFields=%v ignoreNames=%v ignoreTags=%v):\n  %s\n  type %s", g.names[k], f[0], f[1], f[2], clipStr(a, 400), clipStr(before, 500))
+				}
+			}
+		}
+	}
+	if bo.fields > 0 {
+		k := t.Draw("retag-which", bo.fields)
+		retagged, _ := mkVariant(-1, k)
+		for _, f := range hashFlags {
+			if f[0] {
+				continue // behind a user type nothing of its attributes is looked at
+			}
+			a, b := expr.Hash(orig, f[0], f[1], f[2]), expr.Hash(retagged, f[0], f[1], f[2])
+			if f[2] {
+				o.Features["retag_equal_checked"]++
+				if a != b {
+					o.Violate("hash_differs_for_equal_types", fmt.Sprintf("hash_sees_ignored_tag:flags=%v", f), "two types that differ only in a struct:field:name tag hash differently although ignoreTags is set (flags ignoreFields=%v ignoreNames=%v ignoreTags=%v):\n  %s\n  %s\n  type %s", f[0], f[1], f[2], clipStr(a, 400), clipStr(b, 400), clipStr(before, 500))
+				}
+			} else {
+				o.Features["retag_differs_checked"]++
+				if a == b {
+					o.Violate("hash_ignores_difference", fmt.Sprintf("hash_ignores_tag:flags=%v", f), "two types that differ in a struct:field:name tag of object attribute #%d have the same hash although tags count (flags ignoreFields=%v ignoreNames=%v ignoreTags=%v):\n  %s\n  type %s", k, f[0], f[1], f[2], clipStr(a, 400), clipStr(before, 500))
+				}
 			}
 		}
 	}
